@@ -616,7 +616,7 @@ def gen_depth(rng, shape, runner) -> int:
     return max(2, int(mx * rng.uniform(0.5, 0.75)))
 
 
-def gen_deep_thread(rng, i, shared_names: bool, runner: str, gate_pos: str, shape=None):
+def gen_deep_thread(rng, i, shared_names: bool, runner: str, gate_pos: str, shape=None, bind_p: float = 0.9):
     """a thread whose expression is nested 50-75 % as deep as its runner class handles alone.
     gate_pos: where the (holding) host function `gate` is called —
       inside: at the bottom of the nesting (the thread is held while it is deep inside its evaluation),
@@ -631,12 +631,14 @@ def gen_deep_thread(rng, i, shared_names: bool, runner: str, gate_pos: str, shap
         v = rng.choice(vars_)
         n = rng.choice([1, 2, 3]) + (d if shape == "addchain" else 0)
         deep = [shape, v, d, n, inside]
+        must = {v} if inside else set()      # the argument of the gate itself is always bound: the gate is reached
         r = rng.random()
         if r < 0.4:
             deep = ["and", deep, base]
         elif r < 0.6:
             deep = ["or", deep, base]
     else:
+        must = set()
         inner = base
         if inside:
             inner = ["gate", base] if rng.random() < 0.5 else ["and", ["gate", ["lit", True]], base]
@@ -648,7 +650,7 @@ def gen_deep_thread(rng, i, shared_names: bool, runner: str, gate_pos: str, shap
     else:
         e = deep
     used = sorted(set(expr_vars(e)))
-    binds = [[v, rng.choice([1, 2, 3])] for v in used if rng.random() < 0.9]
+    binds = [[v, rng.choice([1, 2, 3])] for v in used if rng.random() < bind_p or v in must]
     return {"runner": runner, "expr": e, "binds": binds}
 
 
@@ -662,12 +664,12 @@ def gen_hold_scenarios(rng, how_many: int):
         shared = rng.random() < 0.5
         n = 2 if rng.random() < 0.7 else 3
         if k == 0:
-            ths = [gen_deep_thread(rng, i, shared, "I", "inside") for i in range(n - 1)] + \
-                  [gen_deep_thread(rng, n - 1, shared, "I", rng.choice(["none", "inside", "before"]))]
+            ths = [gen_deep_thread(rng, i, shared, "I", "inside", bind_p=1.0) for i in range(n - 1)] + \
+                  [gen_deep_thread(rng, n - 1, shared, "I", rng.choice(["none", "inside", "before"]), bind_p=1.0)]
         elif k == 1:
-            first = gen_deep_thread(rng, 0, shared, rng.choice("IC"), rng.choice(["inside", "before"])) if rng.random() < 0.5 \
+            first = gen_deep_thread(rng, 0, shared, rng.choice("IC"), rng.choice(["inside", "before"]), bind_p=1.0) if rng.random() < 0.5 \
                 else gen_thread(rng, 0, shared, rng.choice("IC"), gate=True)
-            ths = [first, gen_deep_thread(rng, 1, shared, "I", "before")]
+            ths = [first, gen_deep_thread(rng, 1, shared, "I", "before", bind_p=1.0)]
         else:
             ths = []
             for i in range(n):
@@ -826,14 +828,14 @@ class C16(Prop):
         self._alone: Dict[str, Any] = {}
         self._solo: Dict[str, str] = {}
         self._tier = "quick"
-        self._times: Dict[str, float] = {}
+        self._times: Dict[str, Any] = {}
 
     def generate(self, rng, tier):
-        t0 = time.time()
+        t0, c0 = time.time(), sum(os.times()[:4])
         try:
             return self._generate(rng, tier)
         finally:
-            self._times["generate+prefetch"] = self._times.get("generate+prefetch", 0.0) + time.time() - t0
+            self._clock("generate+prefetch", t0, c0)
 
     def _generate(self, rng, tier):
         self._tier = tier
@@ -940,14 +942,20 @@ class C16(Prop):
             self._cache[case_key(c)] = {"out": out, "tobs": tobs}
 
     # ---- implementation ---------------------------------------------------------------------------
+    def _clock(self, key, t0, c0):
+        """wall and cpu (self + waited-for children) seconds per phase; printed when VERIF_C16_TIMING is set"""
+        c1 = sum(os.times()[:4])
+        w, c = self._times.get(key, (0.0, 0.0))
+        self._times[key] = (w + time.time() - t0, c + c1 - c0)
+        if os.environ.get("VERIF_C16_TIMING"):
+            print("C16 timing (wall, cpu):", {k: (round(a, 1), round(b, 1)) for k, (a, b) in self._times.items()}, file=sys.stderr)
+
     def impl(self, c):
-        t0 = time.time()
+        t0, c0 = time.time(), sum(os.times()[:4])
         try:
             return self._impl(c)
         finally:
-            self._times[c.get("kind", "?")] = self._times.get(c.get("kind", "?"), 0.0) + time.time() - t0
-            if os.environ.get("VERIF_C16_TIMING"):
-                print("C16 timing:", {k: round(v, 1) for k, v in self._times.items()}, file=sys.stderr)
+            self._clock(c.get("kind", "?"), t0, c0)
 
     def _impl(self, c):
         k = case_key(c)
